@@ -106,7 +106,7 @@ func (s *readerSys) Reset() {
 	} else {
 		s.env = NewEnvReader(s.D, s.cfg.Env)
 		s.env.Ch, s.env.DevMax = s.ch, s.devMax
-		dr := bufiox.NewDefaultReader(s.env)
+		dr := bufiox.NewDefaultReader(s.env.Src())
 		s.r, s.dr = dr, dr
 	}
 	s.warmWhat, s.warmSig = "", ""
